@@ -32,6 +32,7 @@ class Executor(ExprMixin, CallMixin, LoopMixin, CompMixin, SqliteMixin, BuiltinM
         self.depth = 0
         self.write_log = None
         self.write_refs = None
+        self.contradictions = []
         self.axioms = []                # global background facts (instantiated lemma facts)
         self.loop_ord_cache = {}
         self.epochs = {}                # allocation epochs: base id -> (previous base id, refs used there)
@@ -111,6 +112,10 @@ class Executor(ExprMixin, CallMixin, LoopMixin, CompMixin, SqliteMixin, BuiltinM
             if isinstance(f, ast.Attribute) and f.attr in ("debug", "info", "warning", "error", "exception", "critical"):
                 tgt = ast.unparse(f.value)
                 return tgt in ("logger", "self.logger", "logging")
+        # self.logger = logger.getChild(...): the logger attribute is not part of the modelled state (A-LOG)
+        if isinstance(node, ast.Assign) and len(node.targets) == 1 and ast.unparse(node.targets[0]) == "self.logger" \
+                and isinstance(node.value, ast.Call) and ast.unparse(node.value.func) in ("logger.getChild", "logging.getLogger"):
+            return True
         return False
 
     def exec_stmt(self, s, st):
@@ -198,6 +203,9 @@ class Executor(ExprMixin, CallMixin, LoopMixin, CompMixin, SqliteMixin, BuiltinM
         return self.flush(st)
 
     def st_Assign(self, s, st):
+        if self.is_logger_call(s):
+            self.used_assumptions.add("A-LOG")
+            return [st]
         v = self.eval(s.value, st)
         v = self.apply_local_type(s.targets[0], v, st, s.value)
         for tgt in s.targets:
